@@ -103,6 +103,12 @@ def loop_class(name: str) -> type:
     return _LOOPS[name]
 
 
+def _stopping(w: Any) -> bool:
+    """a worker that was told to stop (the backend's flag if it has one, else: it has exited)"""
+    f = getattr(w, "stopping", None)
+    return bool(f) if f is not None else not w.is_alive()
+
+
 def worker_threads() -> list[threading.Thread]:
     return [t for t in threading.enumerate() if t.name == "AnyIO worker thread"]
 
@@ -321,7 +327,7 @@ class Run:
         if len(inflight) != len(at_gate) + waiting:
             return False
         for w in self.seen_workers.values():
-            if w.stopping and w.is_alive():
+            if _stopping(w) and w.is_alive():
                 return False
         for i in range(self.n):
             if self.entered[i] and self.released[i] and not self.left[i]:
@@ -388,14 +394,17 @@ class Run:
 
     def note_workers(self) -> list[int]:
         """register the WorkerThreads of this loop; returns the ones stopped since the last look"""
-        from anyio._backends._asyncio import _threadpool_workers
-
         try:
+            from anyio._backends._asyncio import _threadpool_workers
+
             for w in _threadpool_workers.get():
                 self.seen_workers.setdefault(self.wid(w), w)
-        except LookupError:
+        except (ImportError, LookupError):
             pass
-        new = [t for t, w in self.seen_workers.items() if w.stopping and t not in self.pruned]
+        # (independent of the backend's private bookkeeping: the worker threads that are alive)
+        for w in worker_threads():
+            self.seen_workers.setdefault(self.wid(w), w)
+        new = [t for t, w in self.seen_workers.items() if _stopping(w) and t not in self.pruned]
         self.pruned.update(new)
         return new
 
@@ -495,14 +504,19 @@ class Run:
                             self.lines.append((f"settotal {a}", "env"))
                             self.snap()
                         elif op == "age":
-                            from anyio._backends._asyncio import WorkerThread, _threadpool_idle_workers
-
+                            # needs the backend's idle-worker bookkeeping; if its private layout has
+                            # changed the step is skipped (the idle-time expiry is then not exercised)
                             try:
+                                from anyio._backends._asyncio import WorkerThread, _threadpool_idle_workers
+
                                 idle = list(_threadpool_idle_workers.get())
-                            except LookupError:
-                                idle = []
+                                span = WorkerThread.MAX_IDLE_TIME + 1
+                                if any(not hasattr(w, "idle_since") for w in idle):
+                                    raise AttributeError("idle_since")
+                            except (ImportError, LookupError, AttributeError):
+                                continue
                             for w in idle:
-                                w.idle_since -= WorkerThread.MAX_IDLE_TIME + 1
+                                w.idle_since -= span
                             self.ev("age", tuple(self.wid(w) for w in idle))
                         else:
                             raise ValueError(step)
